@@ -533,6 +533,9 @@ void TreeGraphImpl<GraphImpl>::setOutGroup(Graph::NodeId newOutGroup)
 template<class GraphImpl>
 std::vector<Graph::NodeId> TreeGraphImpl<GraphImpl>::getNodePathBetweenTwoNodes(Graph::NodeId nodeA, Graph::NodeId nodeB, bool includeAncestor) const
 {
+  // the path goes up the two lines of ancestors: in an unrooted tree every neighbour is an
+  // incoming neighbour, and two nodes joined to each other alone would be climbed for ever
+  mustBeRooted_();
   GraphImpl::nodeMustExist_(nodeA);
   GraphImpl::nodeMustExist_(nodeB);
   std::vector<Graph::NodeId> path;
